@@ -210,6 +210,7 @@ def run_unit(u):
         res.scopes.append({"unit": u["name"], "docs": len(docs), "applied_steps": n, "completed": True})
     else:
         pools = ops.default_pools(c, sc, pool, u.get("max_slices"))
+        pools_small = ops.default_pools(c, sc, pool, 10, max_nodes=3)
         seen = set()
         frontier = [(d, 0) for d in docs]
         while frontier:
@@ -221,7 +222,7 @@ def run_unit(u):
             res.states += 1
             node = c.node(d)
             size = common.doc_size(model, d)
-            for op in ops.enumerate_ops(model, size, pools):
+            for op in ops.enumerate_ops(model, size, pools if depth == 0 else pools_small):
                 engine.kick()
                 try:
                     status, tr, exc = ops.run_op(c, node, op)
@@ -235,7 +236,7 @@ def run_unit(u):
                     n += 1
                     if status == "ok" and depth + 1 < u["depth"] and size <= u["size"] - 3:
                         nd = tr.doc.to_json()
-                        if common.doc_size(model, nd) <= u["size"] + 2 and jkey(nd) not in seen:
+                        if common.doc_size(model, nd) <= u["size"] and jkey(nd) not in seen:
                             frontier.append((nd, depth + 1))
         if docs:
             res.sample({"kind": "op", "schema": c.id, "doc": docs[-1], "op": {"op": "lift", "from": 1, "to": 2}})
